@@ -125,8 +125,38 @@ pub fn default_kh_table(n: u64, size: u64) -> Vec<u64> {
     t
 }
 
+/// Aborts the process when the harness makes no progress for `secs` seconds: a library call that does not return (for
+/// example a walk over a list that has become cyclic) would otherwise hang the check for ever.  The runner treats the
+/// abort like any other death of the process by a signal.  (No allocation in this thread: the allocator is instrumented.)
+#[cfg(not(miri))]
+fn start_watchdog(secs: u64) {
+    use std::sync::atomic::Ordering::Relaxed;
+    std::thread::spawn(move || {
+        let mut last = exec::HEARTBEAT.load(Relaxed);
+        let mut idle = 0u64;
+        loop {
+            std::thread::sleep(std::time::Duration::from_secs(1));
+            let now = exec::HEARTBEAT.load(Relaxed);
+            if now == last && now > 0 {
+                idle += 1;
+                if idle >= secs {
+                    use std::io::Write as _;
+                    let _ = std::io::stderr().write_all(b"WATCHDOG: no progress, a library call did not return; aborting\n");
+                    std::process::abort();
+                }
+            } else {
+                last = now;
+                idle = 0;
+            }
+        }
+    });
+}
+#[cfg(miri)]
+fn start_watchdog(_: u64) {}
+
 fn main() {
     std::panic::set_hook(Box::new(|_| {}));
+    start_watchdog(std::env::var("CVH_WATCHDOG_SECS").ok().and_then(|s| s.parse().ok()).unwrap_or(30));
     let argv: Vec<String> = std::env::args().collect();
     if argv.len() < 2 {
         eprintln!("usage: cvh <exec|...> [--options]");
